@@ -41,6 +41,7 @@ class KktSeam:
         self.lapack = None           # optional LapackSeam armed inside
         self.monitors = []           # callables monitor(kind, W, args) for C07 (factor time)
         self.log = log
+        self.exc_class = ArithmeticError   # what a failing factorisation raises: ArithmeticError or one of its subclasses
 
     # -- generic wrappers
     def wrap_factor(self, factor):
@@ -58,7 +59,7 @@ class KktSeam:
             if ('factor', k) in seam.plan:
                 seam.fired.append(('factor', k) + ph)
                 seam.interface_failed.append(('factor', k, True))
-                raise ArithmeticError('VERIF injected: factorisation #%d' % k)
+                raise seam.exc_class('VERIF injected: factorisation #%d' % k)
             seam._enter('factor', k)
             try:
                 solve = factor(W, *args, **kw)
@@ -83,7 +84,7 @@ class KktSeam:
             if ('solve', k) in seam.plan:
                 seam.fired.append(('solve', k) + ph)
                 seam.interface_failed.append(('solve', k, True))
-                raise ArithmeticError('VERIF injected: KKT solve #%d' % k)
+                raise seam.exc_class('VERIF injected: KKT solve #%d' % k)
             seam._enter('solve', k)
             try:
                 return solve(x, y, z)
